@@ -86,7 +86,112 @@ PROPS["C12"] = {
     "assumptions": ["the single-session oracle feeds the same snippets to one non-interactive bash with expand_aliases on; a detached step is a subshell there", "process-specific values ($$, BASHPID, SHLVL, RANDOM) are not probed"],
 }
 
+MD_TB = [
+    KERNEL,
+    "the theorem statements in lean/ScrutModel/Props/C06.lean (and the relation Covers in Model/MarkdownSpec.lean) being a faithful reading of the property",
+    CORR,
+    "hand-written models lean/ScrutModel/Model/Markdown.lean (str::lines, extract_code_block_start with byte-offset slicing, MarkdownIterator, extract_title, MarkdownParser::parse) and Model/LineParser.lean (LineParser), tied to src/parsers/markdown.rs and line_parser.rs by behavioural correspondence only",
+    "parameters of the model, supplied per case by the harness from the real code: the Unicode class \\p{L} (regex crate), ExpectationMaker::parse accepting a line, serde_yaml accepting a front-matter / inline configuration text and the layered configuration it yields (opaque values; layering is C16, YAML is C17)",
+    "Unicode White_Space (char::is_whitespace = regex \\s) is written out in the model",
+    "src/bin/utils/file_parser.rs (choosing the parser by file extension, reading the file) is not modelled",
+    RUSTC,
+]
+MD_RULE = (
+    "documents through the real MarkdownParser::parse vs the model: (1) 30k (thorough 400k) seeded AST-directed documents of <= 9 items (blank, prose incl. backtick-led lines, paragraph, heading, front-matter, foreign blocks with 3-6 backticks and any info string, scrut blocks with config/comments/multi-line commands/expectations/exit code, blocks without command; CRLF and missing final newline variants) with the expected tests known by construction; "
+    "(2) every line-prefix (up to 12 lines) of such documents, expected tests = complete items + the cut construct read to the end; (3) seeded malformed documents (a fence line dropped, a line inserted, cut at any character); "
+    "(4) exhaustive: all documents of <= 5 (thorough 6) lines over a 15-line alphabet; (5) exhaustive: all fence lines ``` / `` + <= 6 (thorough 7) characters over {`,scrut,{,},space,e-acute,CR} in front of a fixed body; (6) fixed witnesses of stricter readings. "
+    "Compared per test: title, shell expression, expectation texts, exit code, line number, layered configuration; document configuration; error kind and line. non-trivial = at least two lines starting with ```; distinct = distinct model op line"
+)
+PROPS["C06"] = {"rule": MD_RULE, "trusted_base": MD_TB, "assumptions": ["the Lean model is tied to the Rust code by differential execution, not by translation", "expectation parsing, YAML and the Unicode letter class enter the model as per-case verdicts computed by the real code"]}
+
+YAML_TB = [
+    KERNEL,
+    "the theorem statements in lean/ScrutModel/Props being a faithful reading of the property",
+    CORR,
+    "hand-written models lean/ScrutModel/Model/Duration.lean (humantime 2.4 format_duration/parse_duration incl. checked u64 arithmetic) and Model/ConfigRender.lean (TestCaseConfig::to_yaml_one_liner, yaml_quoted = serde_json string quoting, yaml_plain_or_quoted; parseFlow = the flow-mapping subset of YAML with libyaml's reader check, plain/double-quoted scalar scanning, 1024-byte simple-key rule, serde_yaml scalar resolution and the typed layer of TestCaseConfig incl. parse_duration_opt and TestCaseWait::parse), tied to the code by behavioural correspondence only",
+    "serde_yaml 0.9.34 / unsafe-libyaml 0.2.11 / serde_json / humantime are trusted as the reference the model is compared with; inputs containing YAML line-break characters are outside the modelled subset (both sides answer `outside`)",
+    "front-matter (serde_yaml block emitter for DocumentConfig) and the code-fence embedding (MarkdownTestCaseGenerator -> MarkdownParser) are checked by direct oracle on the real code only, not modelled",
+    "the general statement parseFlow (toOneLiner c) = ok c is NOT a theorem (only durations, quoting and concrete instances are proved); for whole configurations the evidence is the exhaustive/sampled oracle on the real code plus model agreement",
+    RUSTC,
+]
+YAML_RULE = (
+    "durations: all unit boundaries (+-1, x1..3), 0, 1 ns, 2^64-1 s, seeded random magnitudes, each formatted and parsed by humantime and by the model; malformed/random duration texts from a token alphabet through both parsers; "
+    "configs: every subset of the 8 keys x 3 value variants; every string of an 82-element alphabet (quotes, backslash, colon, braces, comma, #, blanks, TAB, newline, empty, true/1/~/null/yes, non-ASCII, control and non-characters, YAML line breaks) as environment value, name, wait path, and all name x value pairs; names of 1020-1027 bytes; seeded random configs; "
+    "each config: model rendering vs real to_yaml_one_liner (bytes), real from_str(one-liner) == config (direct oracle), model parseFlow vs real from_str on the rendering; grammar-generated flow mappings (type-correct and wrong values, nulls, duplicates, escapes, spacing) through model and serde_yaml; "
+    "front-matter to_string->from_str and generator->parser fence embedding by oracle. non-trivial = at least two keys or an environment/wait entry (configs), at least two units (durations); distinct = distinct model op line"
+)
+PROPS["C17"] = {"rule": YAML_RULE, "trusted_base": YAML_TB, "assumptions": ["the Lean model is tied to the Rust code by differential execution, not by translation", "Duration values are (secs < 2^64, nanos < 10^9); paths are valid UTF-8 (to_string_lossy is the identity)"]}
+
+CAPTURE_TB = [
+    KERNEL,
+    "the theorem statements in lean/ScrutModel/Props being a faithful reading of the property",
+    CORR,
+    "hand-written models lean/ScrutModel/Model/Template.lean (str::replace and the replace chain of BashRunner::run), Crlf.lean (replace_crlf loop, TestCase::render_output), Divider.lean (compile_script layout, parse_divider_bytes, iterate_divided_output, execute_all after the shell returned, remove_dividers_from_output); tied to the code by correspondence with real processes (shell /bin/cat for the rendered template, a replay shell for the divider parser, a capture shell for the compiled script)",
+    "NOT modelled, exercised only: what bash does with the script text (the model assumes each test writes its payload followed by the divider line), pipe capacity / deadlock with megabytes on both streams, Redirection::Merge write order, stack depth and memory; strip_ansi_escapes::strip and shell_escape are third-party and enter as parameters",
+    "the template text and the excluded-variable list are read from the repository at run time and handed to the model with every case",
+    "bash 5.2, /bin/sh, /bin/cat, subprocess crate",
+    RUSTC,
+]
+CAPTURE_RULE = (
+    "(1) str::replace vs replaceAll: exhaustive patterns over {a,b} up to length 2 x 5 replacements x all subjects up to length 6 (thorough 8), random brace/placeholder fragments; "
+    "(2) BashRunner with shell /bin/cat: every expression of up to 2 (thorough 3) tokens over an alphabet holding every placeholder name, braces, newline, CRLF, a divider look-alike and non-ASCII, plus random expressions x names/state directories that themselves contain placeholders x detached; the model renders the CURRENT template; oracle: the script equals the script for a neutral expression with the expression in its place; "
+    "(3) replace_crlf: every string over {CR,LF,a} up to length 8 (thorough 10) and random bytes, against the model loop, the Lean spec and an independent Rust spec; render_output over keep_crlf x strip_ansi_escaping x payload menu; "
+    "(4) BashScriptExecutor with a replay shell feeding prepared streams (well-formed and damaged divider lines: wrong index, signs, overflow, missing parts, foreign salt, unterminated, non-UTF-8) to the private divider parser, the timeout path, and a capture shell storing the compiled script; "
+    "(5) real bash through StatefulExecutor(BashRunner) and BashScriptExecutor: payload programs writing prescribed bytes (empty, unterminated, NUL, all 256 byte values, CRLF forms, ANSI, placeholder names, divider look-alikes) to stdout/stderr and exiting with prescribed codes (all of 0..255 in thorough), sequences of 1-4 tests x combined x keep_crlf x skip code, 1 MiB (thorough 4 MiB + 10^6 CRLF pairs) on both streams at once; oracle = the bytes and code the program was told to produce. "
+    "non-trivial = the case contains a pattern occurrence / placeholder or brace / CR LF / a divider / a non-empty payload; distinct = distinct model op line"
+)
+PROPS["C13"] = {"rule": CAPTURE_RULE, "trusted_base": CAPTURE_TB, "assumptions": [
+    "the Lean model is tied to the Rust code by differential execution, not by translation",
+    "PARTIAL: the shell, the pipes and the OS are outside the model; the round-trip theorems assume the stream a shell produces for the compiled script is every payload followed by its divider line (compared with real bash on every run)",
+    "usize is 64 bit",
+]}
+
+RENDER_TB = [
+    KERNEL,
+    "the theorem statements in lean/ScrutModel/Props being a faithful reading of the property",
+    CORR,
+    "hand-written model lean/ScrutModel/Model/Pretty.lean of the decision logic of src/renderers/pretty.rs (render_malformed_output: surrounding lines, elision, line numbers, Decorator padding, higlight_tailing_spaces/space_start_index), src/renderers/diff.rs (UnifiedDiff::render hunks, the outer sort) and the outer loops; tied to the code by correspondence on the rendered text (ANSI stripped, entries and number columns extracted)",
+    "ANSI styling (console), escaping of texts (Escaper, see C11), header texts and the `strip-ansi-escapes` pass of the monochrome renderer are not modelled; they are exercised by the direct oracles on the real output only",
+    "JSON/YAML well-formedness rests on serde_json / serde_yaml (the harness parses the real output back with the same crates)",
+    "usize is modelled as a natural number with an explicit 2^64 bound on the `+ max_surrounding_lines` additions only; other additions are assumed not to overflow (sizes bounded by memory)",
+    RUSTC,
+]
+RENDER_RULE = (
+    "all four renderers in-process (pretty colour + monochrome, diff, json compact/pretty, yaml) under catch_unwind: (1) every string over an 11-symbol alphabet (ASCII, blank, TAB, U+3000, NBSP, U+2003, U+2028, 2- and 4-byte characters, U+0085, backslash) up to length 4 (thorough 5) as unexpected output line and as expectation, plus seeded random texts, against the model of higlight_tailing_spaces; "
+    "(2) every diff shape over {matched, unmatched, unexpected} up to length 7 (thorough 9) with max_surrounding_lines 0..3, relative/absolute numbers; (3) seeded diffs produced by the REAL DiffTool on generated expectation/output pairs (all rule kinds, quantifiers, wide/multi-byte characters, trailing Unicode white space, control bytes, invalid UTF-8, 10^5-character lines, missing final newline); (4) hand-built Diff::new(..) both well-formed and arbitrary (indices outside the test case, empty line lists, max_surrounding_lines up to usize::MAX): model and code must agree on crash/no crash; "
+    "(5) every sequence of result kinds up to length 3 (thorough 4) and seeded outcome lists with all/no/mixed locations: sections, summary counts, sort order of the diff renderer, json/yaml kinds. non-trivial = a diff with at least one matched and one differing entry / a text with trailing white space after other text / at least two outcomes; distinct = distinct model op line"
+)
+PROPS["C19"] = {"rule": RENDER_RULE, "trusted_base": RENDER_TB, "assumptions": [
+    "the Lean model is tied to the Rust code by differential execution, not by translation",
+    "the harness is built with debug assertions (overflow checks on): an arithmetic overflow is a panic, as in the model",
+    "a DiffLine's output line contains no embedded newline (the matcher splits at newlines) and an expectation's text is one line",
+]}
+
 MANIFEST_TEXT = {
+    "C19": {
+        "text": "Machine-checked (Lean 4, any diff, any max_surrounding_lines): every unmatched expectation and every line of every unexpected block is among the items the pretty renderer emits and among the -/+ lines of the unified diff, and the pretty renderer emits nothing that is not an entry of the diff (C19_all_shown_pretty, C19_all_shown_rendered, C19_only_differences_pretty, C19_all_shown_unified); none of the panicking operations of render_malformed_output (line_base, + max_surrounding_lines, lines[0], Decorator width - digits) fails for any diff satisfying C02's well-formedness with the test case's own expectations, hence for every diff the matcher can produce (C19_no_panic, C19_no_panic_matcher; the explicit domain is Dom, and C19_panics_outside_domain shows it is necessary for hand-built Diff values); space_start_index is a character boundary of every string, so the two slices of higlight_tailing_spaces succeed (C19_space_index; the pre-fix code fails on foo+U+3000 in the model: C19_old_space_index_failed_on_witness); outcomes that passed get no section in the pretty and diff renderings and every failed one gets its pretty section (C19_no_section_for_pass, C19_failed_has_section). Tie to code: all four renderers in-process on exhaustive small scopes (strings over an 11-symbol Unicode alphabet, all diff shapes up to length 7, all kind sequences up to 3) and seeded cases incl. diffs by the real DiffTool, arbitrary hand-built diffs, invalid UTF-8, 10^5-character lines; the rendered text is parsed back (number columns, symbols, hunk headers, section titles, summary) and compared with the model; direct oracles: no panic inside the domain, every difference on a line of its own with its full (escaped) text, JSON/YAML parse back with one entry per outcome and the right result.kind.",
+        "design_ref": "DESIGN.md §6 C19",
+        "note": "Trusted: Lean kernel + 3 standard axioms, the correspondence harness, statement reading. Not modelled: ANSI styling, text escaping (C11), serde (JSON/YAML well-formedness is checked by parsing the real output only). The library API accepts Diff values the matcher cannot produce; for those the renderer can panic (index beyond the test case, empty matched entry, max_surrounding_lines near usize::MAX) - model and code agree on exactly which. DiffRenderer returns an error for a mix of located and unlocated outcomes (not reachable from the command line, every outcome there has a location). Two defects were repaired by fix: commits (6e80f5e, bcb9200).",
+        "technique": "Lean 4 theorems on an executable model of the renderers' decision logic with checked arithmetic + differential correspondence on parsed renderings + direct oracles on all four renderers",
+    },
+    "C13": {
+        "text": "PARTIAL. Machine-checked for the logic scrut contributes: (a) template rendering: if after the four other substitutions the expression placeholder occurs exactly once (decidable, evaluated on the current template at every run) there are fixed pre/post such that for EVERY expression, also ones containing placeholder names, the script handed to the shell is pre ++ expression ++ post (C13_expression_verbatim; C13_replace_absent/once about str::replace; C13_expression_hypothesis_needed shows the hypothesis is necessary); (b) replace_crlf: the loop never slices out of range and equals the specification 'drop a byte iff it is CR and the next is LF' for outputs of any size, only CRs disappear, order kept, CR CR LF keeps one CR (C13_crlf, C13_crlf_characterisation); render_output is the identity under keep_crlf, never consults the ANSI stripper unless strip_ansi_escaping, and strips after CRLF processing (C13_keep_crlf_identity, C13_no_strip_only_crlf, C13_strip_after_crlf); (c) single-script mode: for any salt without ':'/LF, any payloads (empty, unterminated, arbitrary bytes) that do not contain the divider prefix and exit codes < 2^31 other than the skip code, splitting the streams 'payload, divider line' returns every test's own stdout, stderr and exit code, separated or merged (C13_stream_roundtrip_partial, C13_divider_roundtrip_partial, C13_divider_roundtrip_combined_partial). The guard is necessary: C13_divider_roundtrip_fails_on_witness (known finding C13:divider-lookalike, the parser ignores the salt and finds the prefix anywhere in a line). NOT proved, exercised with real processes on every run: what bash does with the script text, pipe capacity/deadlock with megabytes on both streams at once, Redirection::Merge ordering, stack depth; exit codes 0..255, NUL bytes, all byte values, both executors, all output_stream/keep_crlf/strip_ansi settings, with the bytes the payload program was told to write as oracle.",
+        "design_ref": "DESIGN.md §6 C13",
+        "note": "Partial by nature: bash, pipes and the OS are not modelled. Trusted: kernel + 3 standard axioms, the correspondence harness, statement reading; strip_ansi_escapes and shell_escape are parameters. Defects repaired by fix: 35f71bc (placeholders inside the user's expression were substituted), 4cdb4c6 (recursive replace_crlf overflowed the stack). Open finding: C13:divider-lookalike. Also observed, outside the statement: remove_dividers_from_output (timeout path only) joins lines that still end in LF with another LF, so outputs shown after a document timeout have doubled newlines; with zero test cases a divider line on STDERR panics (unreachable with a real shell).",
+        "technique": "Lean 4 theorems on executable models of template rendering, CRLF replacement and the divider protocol + differential correspondence with real processes (cat/replay/capture shells, real bash) + direct byte/exit-code oracles",
+    },
+    "C17": {
+        "text": "Machine-checked for all values: humantime's parse_duration reads back exactly what format_duration writes for every Duration (secs < 2^64, nanos < 10^9): no error, overflow or panic (C17_duration_roundtrip); the JSON-quoted form written for environment values / non-plain names and paths is a complete double-quoted YAML scalar with exactly the original characters, also in front of arbitrary following text (C17_quote_roundtrip, C17_quoted_scalar_in_context). For whole configurations the statement parseFlow(toOneLiner c) = c is proved on concrete instances only (C17_one_liner_example: all 8 keys, 2^64-1 s, quotes/backslash/braces/#/control/non-ASCII) and otherwise CHECKED, not proved: every subset of keys, an 82-string alphabet in every string position and all name x value pairs, random configs through the real to_yaml_one_liner + serde_yaml (direct oracle) with the model agreeing byte for byte on rendering and on parsing. The real code VIOLATES the property for strings containing U+007F, U+0080-9F, U+FFFE/FFFF (unreadable), U+0085/2028/2029 (folded/rejected) and for environment names over 1024 bytes (C17_fails_on_unreadable_char, C17_fails_on_long_name; oracle classes C17:not-yaml-readable, C17:line-break-char, C17:long-key). Front-matter and the code-fence embedding are oracle-only.",
+        "design_ref": "DESIGN.md §6 C17",
+        "note": "Trusted: kernel + axioms, harness, serde_yaml/libyaml/serde_json/humantime as reference. Partial: no general theorem for whole configurations. A total_timeout whose whole seconds are 900 is not serialised (None comes back; effective value after layering is 900 s again, a sub-second part is lost: class C17:default-total-timeout-not-serialised). Defect repaired earlier by fix: ccd71db (unescaped quotes/backslashes).",
+        "technique": "Lean 4 theorems on executable models of humantime and of the one-liner renderer / flow-YAML subset + differential correspondence with serde_yaml + direct round-trip oracle on the real code",
+    },
+    "C06": {
+        "text": "Machine-checked for all documents: the Markdown parser model never reaches a panic (every slice of extract_code_block_start is on a character boundary, every line_index-1 is defined: C06_no_crash); the tokenizer always runs to the end and its tokens partition the document - every line in exactly one token, in order, with its own index, closing line = first line starting with the opening fence (C06_tokens_cover); unterminated front-matter, foreign and scrut blocks hold all remaining lines (C06_unterminated_*). PARTIAL: 'parse(render d) = d.tests' for the generator AST (count, order, shell expression, expectations, exit code, configuration, line number, title) is decided by the by-construction oracle on generated documents and all their line-prefixes, not proved. Tie to code: 1.04M documents per quick run (exhaustive <= 5 lines over a 15-line alphabet, exhaustive fence lines, AST-directed, prefixes, malformed) through the real MarkdownParser with 0 disagreements. Stricter readings that the code does not implement are reported as oracle classes with proved witnesses: C06:state-leak, C06:bare-long-fence, C06:info-string-whitespace, C06:config-dropped.",
+        "design_ref": "DESIGN.md §6 C06",
+        "note": "Trusted: Lean kernel + 3 standard axioms, the correspondence harness, statement reading. Expectation grammar (C08), YAML (C17), config layering (C16) and \\p{L} are parameters fed from the real code per case. Four defects repaired earlier by fix: commits (a8558a7, 2f2d0a7, 0557cd9, 41f3a85).",
+        "technique": "Lean 4 theorems on an executable model of tokenizer+parser+LineParser + differential correspondence (exhaustive small scope, AST-directed by-construction oracle, prefixes, malformed)",
+    },
     "C12": {
         "text": "PARTIAL. Machine-checked: (1) for ANY shell semantics and carrier, if restoring what was persisted is observationally equivalent (CarrierTransparent), one-process-per-test execution of any history yields exactly the outputs of a single session, and detached steps leave nothing behind (C12_refines_single_session, C12_detached_leaves_nothing); (2) for the variable carrier as the template implements it, the refinement holds for every history that creates no read-only variable and never unsets an inherited variable (C12_vars_carried_partial); both excluded classes are proved to deviate (witness theorems) and are listed as known findings, reproduced against real bash on every run. That bash + the template are transparent for the other state classes (functions, aliases, shopt/set, arrays, cwd, dirstack, quoting) is sampled on every run against a single bash session (961 exhaustive pairs + seeded longer histories), not proved.",
         "design_ref": "DESIGN.md §6 C12",
@@ -149,5 +254,8 @@ MANIFEST_TEXT = {
     },
 }
 
+# properties whose machinery is merged but being brought up to date with fix commits: not claimed yet
+PENDING = {"C06", "C13", "C17"}
+
 WIP = "not yet claimed: model, theorems and correspondence for this property are still being built (see DESIGN.md §11); nothing is asserted about it"
-NOT_APPLICABLE = [{"property_id": "C%02d" % i, "reason": WIP} for i in range(1, 21) if "C%02d" % i not in PROPS]
+NOT_APPLICABLE = [{"property_id": "C%02d" % i, "reason": WIP} for i in range(1, 21) if "C%02d" % i not in PROPS or "C%02d" % i in PENDING]
